@@ -14,7 +14,7 @@ from pprint import pprint
 from boltons.iterutils import is_iterable
 from boltons.typeutils import make_sentinel
 
-from .core import GlomError, glom, T, MODE, bbrepr, bbformat, format_invocation, Path, chain_child, Val, arg_val
+from .core import GlomError, glom, T, MODE, bbrepr, bbformat, format_invocation, Path, chain_child, Val, arg_val, CHILD_ERRORS
 
 
 _MISSING = make_sentinel('_MISSING')
@@ -730,10 +730,14 @@ def _glom_match(target, spec, scope):
         if not isinstance(target, type(spec)):
             raise TypeMatchError(type(target), type(spec))
         result = []
+        failed = scope.maps[0][CHILD_ERRORS]
         for item in target:
+            tried = len(failed)
             for child in spec:
                 try:
                     result.append(scope[glom](item, child, scope))
+                    # the alternatives this item did not match are not failures of the list
+                    del failed[tried:]
                     break
                 except GlomError as e:
                     last_error = e
